@@ -424,12 +424,16 @@ static void enumerate(int thorough) {
   /* A. server scripts: announced length x body x cut x end behaviour; plain options */
   C.user = "bob"; C.password = "secret"; C.authtok_on_stack = 0; C.prompt_kind = 0; C.argc = 1; C.argv[0] = "timeout=2"; C.flags = 0; C.init_errno = 0;
   timeout_cfg = 2;
-  for (int bi = 0; bi < nb + 2; bi++) {
+  for (int bi = 0; bi < nb + 4; bi++) {
     unsigned char body[700];
     int blen;
     if (bi < nb) { blen = (int)strlen(bodies[bi]); memcpy(body, bodies[bi], (size_t)blen); }
     else if (bi == nb) { blen = 256; memset(body, 'O', 256); body[1] = 'K'; }
-    else { blen = 600; memset(body, 'x', 600); body[0] = 'O'; body[1] = 'K'; }
+    else if (bi == nb + 1) { blen = 600; memset(body, 'x', 600); body[0] = 'O'; body[1] = 'K'; }
+    else if (bi == nb + 2) { /* a refusal that carries "OK" wherever a chunked reader might look next */
+      blen = 600; memset(body, 'x', 600); body[0] = 'N'; body[1] = 'O';
+      body[254] = 'O'; body[255] = 'K'; body[256] = 'O'; body[257] = 'K'; body[258] = 'O'; body[259] = 'K'; body[512] = 'O'; body[513] = 'K'; body[598] = 'O'; body[599] = 'K'; }
+    else { blen = 258; memset(body, 'x', 258); body[0] = 'N'; body[1] = 'O'; body[256] = 'O'; body[257] = 'K'; }
     int anns[] = {0, 1, 2, 3, 4, 255, 256, 257, 65535, -1 /* = exact */};
     for (unsigned ai = 0; ai < sizeof anns / sizeof anns[0]; ai++) {
       int ann = anns[ai] < 0 ? blen : anns[ai];
@@ -440,7 +444,7 @@ static void enumerate(int thorough) {
           for (int ie = 0; ie < 2; ie++) {
             C.cut = cut; C.end_close = endc; C.init_errno = ie ? EINTR : 0;
             snprintf(C.desc, sizeof C.desc, "case %ld: user=bob pw=secret opts=[timeout=2] reply: announced length %d, body %d bytes \"%.12s\", server delivers %d of %d bytes then %s, errno on entry %s",
-                     case_id, ann, blen, bi < nb ? bodies[bi] : "OK+filler", cut, C.reply_len, endc ? "closes" : "stalls", ie ? "EINTR" : "0");
+                     case_id, ann, blen, bi < nb ? bodies[bi] : (bi <= nb + 1 ? "OK+filler" : "NO+filler with OK at 254/256/258/512/end"), cut, C.reply_len, endc ? "closes" : "stalls", ie ? "EINTR" : "0");
             if (take_case()) explore_case();
           }
         }
